@@ -56,6 +56,10 @@ def parseParam (ws : List String) : Param :=
 def parseBeh (v : String) : Option Beh :=
   if v.startsWith "const:" then some (.const (dropS v 6))
   else if v.startsWith "key:" then some (.key (dropS v 4))
+  else if v.startsWith "nest:" then
+    match (dropS v 5).splitOn "," with
+    | [k, tB, inner] => some (.nest k tB (parseKVs inner))
+    | _ => none
   else if v = "empty" then some .empty
   else if v = "panic" then some .panic
   else none
@@ -121,6 +125,10 @@ def stepCall (s : DSt) (ws : List String) : DSt × String :=
   | some "getpid" => (s, "pid=" ++ showPid (getServicePID s.dir (kvS ws "name")))
   | some "workpid" => (s, "pid=" ++ showPid (getWorkServicePID s.dir (kvS ws "name")))
   | some "firstwork" => (s, "pid=" ++ showPid (getFirstWorkService s.dir (kvS ws "type")))
+  | some "race" =>
+    -- two independent evaluations (the first one is parked inside its route function while the second runs)
+    (s, "a=" ++ route s.rules s.dir (kvS ws "ta") (.map (parseKVs (kvS ws "pa")))
+        ++ " b=" ++ route s.rules s.dir (kvS ws "tb") (.map (parseKVs (kvS ws "pb"))))
   | some "split" =>
     let x := splitClientRoute (kvS ws "r")
     (s, "t=" ++ x.1 ++ " a=" ++ x.2.1 ++ " m=" ++ x.2.2)
@@ -220,7 +228,7 @@ def expect (s : SSt) (t : String) (p : Param) (routeOk : Bool) : Expect :=
     -- `get k` : none = the function cannot read the parameter (nil), some none = key absent
     match s.rules.lookup t with
     | some (some (.const n)) => .name n
-    | some (some (.key k)) =>
+    | some (some (.key k)) | some (some (.nest k _ _)) =>     -- a nesting function answers from the OUTER parameter
       match get k with
       | some (some (.str v)) => .name v
       | _ => .fail
@@ -307,6 +315,19 @@ def specLine (s : SSt) (line : String) : SSt × String :=
     | some "qs" | some "kick" =>
       let api := if ws.head? == some "qs" then "sys.querysession" else "sys.kick"
       (s, checkCall op obs (allowed s (.name (kvS ws "front"))) api "R" (!nocb) true)
+    | some "route" =>
+      (s, match expect s (kvS ws "type") (parseParam ws) true with
+          | .name n => if obs == "name=" ++ n then "ok"
+                       else viol "wrong-target" s!"Route must return {n}, the name the rule yields for THIS parameter" op obs
+          | _ => "ok")
+    | some "race" =>
+      let chk (t : String) (l : KVs) (got : String) : Bool :=
+        match expect s t (.map l) true with
+        | .name n => got == n
+        | _ => true
+      let ow := words obs
+      (s, if chk (kvS ws "ta") (parseKVs (kvS ws "pa")) (kvS ow "a") && chk (kvS ws "tb") (parseKVs (kvS ws "pb")) (kvS ow "b")
+          then "ok" else viol "wrong-target" "each of two overlapping Route calls must be answered from its own key map" op obs)
     | some "pid" | some "getpid" =>
       let e := if ws.head? == some "pid" then expect s (kvS ws "type") (parseParam ws) true
                else .name (kvS ws "name")
